@@ -212,6 +212,27 @@ def run_lines(kind, stage, lines, shards=None):
     return out
 
 
+def run_oracle(kind, ostage, lines, shards=None):
+    """An oracle stage on the implementation; 'reread' feeds the implementation's SQL to the
+    reference reader extracted from coq/Spec (ok / skip / FAIL ...)."""
+    if ostage != "reread":
+        return run_lines(kind, ostage, lines, shards=shards)
+    comp = run_lines("impl", "compile", lines, shards=shards)
+    idx, rl = [], []
+    for i, (l, o) in enumerate(zip(lines, comp)):
+        if o.startswith("OK "):
+            idx.append(i)
+            rl.append(l + "\t" + o[3:])
+    res = ["ok"] * len(lines)
+    if rl:
+        if not os.path.exists(DRIVER):
+            return ["skip"] * len(lines)
+        out = run_lines("model", "reread", rl, shards=shards)
+        for i, o in zip(idx, out):
+            res[i] = o
+    return res
+
+
 def _status(x):
     w = x.split(" ", 1)[0]
     return w if w in ("OK", "ERR", "PANIC", "HANG", "FUEL", "INTERNAL", "CRASH") else ("OK" if x != "" or True else x)
@@ -379,11 +400,13 @@ def run_check(pid, tier, seed, replay=None):
             # C first on the implementation alone (it does not need the model)
             for family, ostage, nq, nt in oruns:
                 ls = inputs_for(family, nq, nt, ostage)
-                outs = run_lines("race" if (cfg.get("race") and ostage == "oracle-C14" and os.path.exists(HARNESS + "-race")) else "impl", ostage, ls)
+                outs = run_oracle("race" if (cfg.get("race") and ostage == "oracle-C14" and os.path.exists(HARNESS + "-race")) else "impl", ostage, ls)
                 evaluations += len(ls)
                 for l, o in zip(ls, outs):
                     distinct.add((ostage, l)) if o == "ok" else None
-                    key = "%s/%s:%s" % (family, ostage, "ok" if o == "ok" else "FAIL")
+                    key = "%s/%s:%s" % (family, ostage, "ok" if o == "ok" else ("skip" if o == "skip" else "FAIL"))
+                    if o == "skip":
+                        o = "ok"
                     dist[key] = dist.get(key, 0) + 1
                     if o != "ok":
                         c_fails.append((ostage, l, o))
@@ -428,8 +451,8 @@ def run_check(pid, tier, seed, replay=None):
             if b_breaks:
                 for stage, l, a, b in b_breaks[:200]:
                     for ostage in omap.get(stage, []):
-                        o = run_lines("impl", ostage, [l], shards=1)[0]
-                        if o != "ok":
+                        o = run_oracle("impl", ostage, [l], shards=1)[0]
+                        if o not in ("ok", "skip"):
                             c_fails.append((ostage, l, o))
     except RuntimeError as e:
         violations.append(("machinery", dict(property=pid, broken="check machinery failed", error=str(e)[-3000:]), True))
@@ -459,12 +482,12 @@ def run_check(pid, tier, seed, replay=None):
             if ostage.startswith("oracle-"):
                 def still(c, ostage=ostage, cls=cls):
                     try:
-                        o = run_lines("impl", ostage, [c], shards=1)[0]
+                        o = run_oracle("impl", ostage, [c], shards=1)[0]
                     except RuntimeError:
                         return False
                     return o != "ok" and re.sub(r"[0-9]+", "N", o)[:60] == cls
                 small = shrink(l, still)
-                msg = run_lines("impl", ostage, [small], shards=1)[0]
+                msg = run_oracle("impl", ostage, [small], shards=1)[0]
             nrep += 1
             p = write_replay(pid, nrep, dict(property=pid, kind="failing-input", oracle=ostage, input=small,
                                              input_text=show_input(small, 2000), verdict=msg,
